@@ -82,9 +82,17 @@ def verify_anchors(prog: Program) -> List[str]:
                         counts[x.id] = counts.get(x.id, 0) + 2
 
     class _Deref(ast.NodeTransformer):
+        depth = 0
+
         def visit_Name(self, n: ast.Name) -> ast.AST:
-            if isinstance(n.ctx, ast.Load) and counts.get(n.id) == 1 and isinstance(single.get(n.id), (ast.Call, ast.BinOp)):
-                return _copy.deepcopy(single[n.id])
+            d = single.get(n.id)
+            if isinstance(n.ctx, ast.Load) and counts.get(n.id) == 1 and isinstance(d, (ast.Call, ast.BinOp, ast.Attribute)) and self.depth < 4 \
+                    and not any(isinstance(x, ast.Name) and x.id == n.id for x in ast.walk(d)):
+                self.depth += 1
+                try:
+                    return self.visit(_copy.deepcopy(d))
+                finally:
+                    self.depth -= 1
             return n
 
     def norm(x: ast.AST) -> str:
